@@ -172,6 +172,10 @@ def main():
         for c in packcases.sweep_cases(cr.tier):
             c["kernel"] = c["kind"] in ("sweep-alltypes", "sweep-hardlinks")
             cases.append(c)
+        if "--only" in cr.rest:
+            only = cr.rest[cr.rest.index("--only") + 1].split(",")
+            cases = [c for c in cases if c["kind"] in only]
+            cr.cap("restricted to kinds %s" % only)
         cr.coverage["planned_cases"] = len(cases)
 
         seen = set()
